@@ -254,7 +254,14 @@ def item_parts(it):
                 parts.append("%s attr=%s[%s]" % (kinds[td["kind"]], mm.group(2), g if g in ("auto", "*") else "supports"))
         for mt in td["methods"]:
             mm = re.search(r"attr\(([^,]+),\s*(\w+)", mt)
-            if mm:
+            sig = re.search(r"pub fn \w+(?:<'a>)?\((.*)\)( -> .*?)? \{", mt)
+            if sig:
+                ps = re.sub(r"\b\w+: ", "", sig.group(1).replace("&self, ", "").replace("&mut self, ", ""))
+                txt = "(%s)%s" % (ps, sig.group(2) or "")
+                txt = txt.replace("'a ", "").replace("<'a, ", "<").replace("<'a>", "")
+                txt = re.sub(r"\b(Fo|Fp|Fq|Ow|It|Er|L|M|T|Dm|Ds)\d+\b", "Opaque", _PRIM_RE.sub("prim", txt))
+                parts.append("helper %s%s" % (mm.group(2) if mm else "method", txt))
+            elif mm:
                 parts.append("helper type with attr=%s" % mm.group(2))
     return parts
 
@@ -888,6 +895,48 @@ def fam_e(b, thorough):
             b.add("e", types=[td], m=method(b.mname(), ret=et), pos="custom error:plain return")
 
 
+WRITE = ("ref", True, ("write",))
+
+
+def fam_f(b, depth):
+    """render termini (methods writing to a DiplomatWrite): what demo_gen builds its demos from; owners with a default constructor"""
+    def demo_owner(ctor_params=(), fallible=False, extra=()):
+        name = b.sname("Dm")
+        ret = "Box<%s>" % name
+        if fallible:
+            ret = "Result<%s, ()>" % ret
+        lt = any(G.has_lt(t) for _, t in ctor_params)
+        ctor = ("#[diplomat::attr(auto, constructor)]\n        #[diplomat::demo(default_constructor)]\n        pub fn new%s(%s) -> %s { unimplemented!() }" % (
+            "<'a>" if lt else "", ", ".join("%s: %s" % (n, G.render(t)) for n, t in ctor_params), ret))
+        return name, [tdecl(name, "opaque", methods=[ctor])] + list(extra), fresh(name, "opaque")
+
+    for t in G.universe(depth):
+        if is128(t) or t == WRITE:
+            continue
+        b.add("f", m=method(b.mname(), params=[("x", t), ("w", WRITE)]), pos="terminus:static")
+    for t in G.universe(1):
+        if is128(t) or t == WRITE:
+            continue
+        name, tys, ft = demo_owner()
+        b.add("f", types=tys, m=method(b.mname(), owner=name, selff="&self", params=[("x", t), ("w", WRITE)]), pos="terminus:&self")
+    ctor_alpha = [P("u8"), P("bool"), P("f64"), P("DiplomatChar"), N("En"), N("St"), N("Nest"), N("SB"), OP_REF, ("opt", OP_REF), ("ref", False, ("str", "str")),
+                  ("ref", False, ("str", "DiplomatStr16")), ("ref", False, ("slice", "u8")), ("ref", False, ("slice", "f64")), ("opt", P("u8")), ("opt", N("St")),
+                  ("opt", ("ref", False, ("str", "str"))), ("box", ("slice", "u8")), ("ffi", "DiplomatSlice<'a, DiplomatStrSlice<'a>>", "bslice")]
+    for t in ctor_alpha:
+        for fallible in (False, True):
+            name, tys, ft = demo_owner([("a", t)], fallible)
+            b.add("f", types=tys, m=method(b.mname(), owner=name, selff="&self", params=[("w", WRITE)]), pos="terminus:constructor param")
+            b.add("f", types=tys, m=method(b.mname(), owner=name, selff="&self", params=[("w", WRITE)], ret=("res", ("unit",), N("En"))), pos="terminus:fallible")
+            # the constructed opaque as an argument of somebody else's terminus, directly / optional / inside a struct / via a second constructor
+            b.add("f", types=tys, m=method(b.mname(), params=[("o", ("ref", False, ft)), ("w", WRITE)]), pos="terminus:opaque argument")
+            b.add("f", types=tys, m=method(b.mname(), params=[("o", ("opt", ("ref", False, ft))), ("w", WRITE)]), pos="terminus:optional opaque argument")
+            sn = b.sname("Ds")
+            std = tdecl(sn, "struct", True, [("o", ("ref", False, ft)), ("n", t if not G.has_lt(t) or t[0] != "ref" or t[2][0] not in ("slice", "str") else P("u8"))])
+            b.add("f", types=tys + [std], m=method(b.mname(), params=[("s", fresh(sn, "struct", True)), ("w", WRITE)]), pos="terminus:struct argument")
+            n2, tys2, ft2 = demo_owner([("inner", ("ref", False, ft))], False, extra=tys)
+            b.add("f", types=tys2, m=method(b.mname(), owner=n2, selff="&self", params=[("w", WRITE)]), pos="terminus:nested constructors")
+
+
 def enumerate_items(tier):
     thorough = tier == "thorough"
     b = Builder()
@@ -897,4 +946,5 @@ def enumerate_items(tier):
     fam_c(b, thorough)
     fam_d(b, thorough)
     fam_e(b, thorough)
+    fam_f(b, 3 if thorough else 2)
     return b.items
